@@ -496,6 +496,7 @@ func (x *SExec) apply(i int, op SOp) *Fail {
 		}
 		x.Mode[n] = types.RW
 		x.Labels["promote:ok"]++
+		x.inheritSubBlock(src, n)
 		if x.nRW() == x.P.RF {
 			// all RF replicas are RW and agree on their latest snapshot (the one
 			// taken when the replica was added): the checkpoint is recomputed now
@@ -685,6 +686,14 @@ func (x *SExec) apply(i int, op SOp) *Fail {
 		sc, e1 := st.Nodes[src].S.Replica().Chain()
 		dc, e2 := st.Nodes[n].S.Replica().Chain()
 		if e1 != nil || e2 != nil || len(sc) < 2 || len(dc) < 1 || strings.Join(sc[1:], ",") == strings.Join(dc[1:], ",") {
+			return nil
+		}
+		if len(dc) > len(sc) && strings.Join(sc[1:], ",") == strings.Join(dc[1:len(sc)], ",") {
+			// the unsynced replica has every snapshot of the source under the same name, and
+			// older ones of its own below: the verification compares names from the head down
+			// to the source's base (the sync would have replaced the meta files as well) -
+			// a name check cannot tell (DESIGN 7.4)
+			x.Labels["verifyonly:same-names-extra-older-snapshots"]++
 			return nil
 		}
 		// as in the product's flow the replica is flagged rebuilding first
@@ -2180,6 +2189,7 @@ func (x *SExec) doRebuild(i int, op SOp) *Fail {
 	}
 	x.Labels["promote:ok"]++
 	x.Labels["rebuild:promoted"]++
+	x.inheritSubBlock(src, dst)
 	if f := writes(op.N); f != nil {
 		return f
 	}
@@ -2396,6 +2406,7 @@ finished:
 	x.Mode[n] = types.RW
 	x.Labels["promote:ok"]++
 	x.Labels["sysrebuild:promoted"]++
+	x.inheritSubBlock(src, n)
 	// promoted replica equals its source
 	s, d := st.Nodes[src], node
 	ca, cb := s.S.Replica().GetRevisionCounter(), d.S.Replica().GetRevisionCounter()
@@ -3310,4 +3321,15 @@ func (x *SExec) doStatsRace(i int, op SOp) *Fail {
 		x.Labels["statsrace:parked"]++
 	}
 	return nil
+}
+
+// inheritSubBlock: a replica rebuilt from a source whose image is off in some blocks
+// (the known sub-block finding of C07) is off in the same blocks.
+func (x *SExec) inheritSubBlock(src, dst int) {
+	for b := range x.subBlockWO[src] {
+		if x.subBlockWO[dst] == nil {
+			x.subBlockWO[dst] = map[int64]bool{}
+		}
+		x.subBlockWO[dst][b] = true
+	}
 }
